@@ -62,6 +62,10 @@ type Input struct {
 	PayVia string  `json:"pay_via"` // map_db (key "val") | map_field (key "Val") | struct
 	SetKey string  `json:"set_key"` // name the hooks pass to SetColumn: field ("Val") | db ("val")
 	Limit  int64   `json:"limit"`   // find: rows with tag <= Limit are selected
+	// FailKind: what a failing hook returns: "" = errors.New-style "E<k>"; otherwise "E<k>: %w" wrapping one
+	// of gorm's own sentinel errors: not_found | invalid_tx | missing_where | invalid_value | empty_slice | invalid_data
+	FailKind string `json:"fail_kind,omitempty"`
+	Batch    int    `json:"batch,omitempty"` // create_in_batches: batch size
 }
 
 // Ev is one hook invocation as the hook itself saw it.
@@ -107,14 +111,15 @@ type Obs struct {
 // ---------------------------------------------------------------- environment of the hooks
 
 type env struct {
-	rec    *recdrv.Recorder
-	log    []Ev
-	inv    int
-	fails  map[int]bool
-	sets   map[int]bool
-	setKey string
-	errs   map[int]error
-	last   error
+	rec      *recdrv.Recorder
+	log      []Ev
+	inv      int
+	fails    map[int]bool
+	sets     map[int]bool
+	setKey   string
+	failKind string
+	errs     map[int]error
+	last     error
 }
 
 var E *env
@@ -147,12 +152,19 @@ func hk(tx *gorm.DB, hook, typ string, tag int64) error {
 	}
 	if E.fails[k] {
 		err := fmt.Errorf("E%d", k)
+		if w, ok := sentinels[E.failKind]; ok {
+			err = fmt.Errorf("E%d: %w", k, w)
+		}
 		E.errs[k] = err
 		E.last = err
 		return err
 	}
 	return nil
 }
+
+var sentinels = map[string]error{"not_found": gorm.ErrRecordNotFound, "invalid_tx": gorm.ErrInvalidTransaction,
+	"missing_where": gorm.ErrMissingWhereClause, "invalid_value": gorm.ErrInvalidValue, "empty_slice": gorm.ErrEmptySlice,
+	"invalid_data": gorm.ErrInvalidData}
 
 // ---------------------------------------------------------------- database
 
@@ -348,6 +360,7 @@ func (w *World) Run(in Input) (o Obs) {
 	for _, k := range in.Sets {
 		E.sets[k] = true
 	}
+	E.failKind = in.FailKind
 	E.setKey = "Val"
 	if in.SetKey == "db" {
 		E.setKey = "val"
@@ -391,6 +404,8 @@ func (w *World) Run(in Input) (o Obs) {
 		switch in.Op {
 		case "create":
 			res = db.Create(arg)
+		case "create_in_batches":
+			res = db.CreateInBatches(arg, in.Batch)
 		case "save":
 			res = db.Save(arg)
 		case "update":
@@ -482,8 +497,8 @@ func (w *World) Run(in Input) (o Obs) {
 }
 
 func normErr(s string, full error) string {
-	if regexp.MustCompile(`^E\d+$`).MatchString(s) {
-		return s
+	if m := regexp.MustCompile(`^(E\d+)(: .*)?$`).FindStringSubmatch(s); m != nil {
+		return m[1]
 	}
 	switch s {
 	case gorm.ErrInvalidValue.Error():
